@@ -693,6 +693,85 @@ def file_smoke(ctx, impl):
                   f"{out} vs {mem}")
 
 
+def reference_links(ctx):
+    """Oracle only (reference-returning formulas are not in Model/Iter.v): a circular system in which one link goes
+    through =OFFSET(X,0,0) or =INDIRECT("X") must honour the call's settings like the same system with the plain
+    link =X: never more passes than the iterations asked for, and when it stops earlier every equation of the ring
+    holds up to a few tolerances OF THE CALL (not of the workbook)."""
+    import openpyxl
+    from pycel import ExcelCompiler
+    from pycel.excelutil import iterative_eval_tracker
+    rng = ctx.rng
+    for k in range(ctx.n(30, 300)):
+        a, b = rng.choice([0.5, 0.25, -0.5, 0.125]), rng.choice([0.5, 0.25, 0.75, -0.25])
+        link = rng.choice(['=OFFSET(B2,0,0)', '=INDIRECT("B2")', '=OFFSET(B1,1,0)'])
+
+        def book(link_text):
+            wb = openpyxl.Workbook()
+            ws = wb.active
+            ws.title = 'S'
+            ws['D1'] = 1
+            ws['A1'] = f'={a}*C1+D1'
+            ws['B2'] = f'={b}*A1+2'
+            ws['B1'] = 0
+            ws['C1'] = link_text
+            return wb
+        settings = dict(iterations=rng.choice([100, 20, 7]), tolerance=rng.choice([0.001, 0.0625]))
+        c1 = ExcelCompiler(excel=book(link), cycles=dict(settings))
+        c2 = ExcelCompiler(excel=book('=B2'), cycles=dict(settings))
+        hist = []
+        try:        # warm-up: every cell is built and computed before the history (first use answers with the
+            for c in (c1, c2):      # constructed value: known finding C06-construction-counts-as-computed)
+                for _ in range(2):
+                    for t in ('S!A1', 'S!B2', 'S!C1', 'S!D1'):
+                        c.evaluate(t)
+        except Exception as exc:      # noqa: BLE001
+            ctx.violation(dict(call='reference-link', link=link, coefficients=[a, b], settings=settings, history=[]),
+                          f"warm-up evaluate raises {type(exc).__name__}: {exc}"[:200])
+            continue
+        for step in range(rng.randrange(3, 7)):
+            if step and rng.random() < 0.4:
+                v = rng.choice([1, 5, -3, 0.5, 40])
+                c1.set_value('S!D1', v)
+                c2.set_value('S!D1', v)
+                hist.append(['set', 'D1', v])
+                continue
+            it = rng.choice([None, 1, 2, 3, 50])
+            tol = rng.choice([None, 2.0 ** -30, 0.5])
+            target = rng.choice(['S!A1', 'S!B2', 'S!C1'])
+            kw = {key: val for key, val in (('iterations', it), ('tolerance', tol)) if val is not None}
+            hist.append(['eval', target, it, tol])
+            case = dict(call='reference-link', link=link, coefficients=[a, b], settings=settings, history=list(hist))
+            try:
+                r1 = c1.evaluate(target, **kw)
+                p1 = iterative_eval_tracker.ns.iteration_number
+                r2 = c2.evaluate(target, **kw)
+                p2 = iterative_eval_tracker.ns.iteration_number
+            except Exception as exc:      # noqa: BLE001
+                ctx.violation(case, f"evaluate raises {type(exc).__name__}: {exc}"[:200])
+                break
+            ctx.count(('reflink', k, step), kind='oracle:reference-link')
+            limit = it if it is not None else (c1.cycles['iterations'] or 10000)
+            if p1 > limit:
+                ctx.violation(case, f"{p1} passes although {limit} iterations were asked for", impl=p1, expected=limit)
+                break
+            # stopped before the limit: no cell moved by more than the tolerance in the last pass, so every equation
+            # of the ring holds up to a few tolerances (the two models need not agree digit for digit: the link
+            # through a reference is computed at another moment of the pass)
+            tol_eff = tol if tol is not None else (c1.cycles['tolerance'] or 0.01)
+            for comp, p, which in ((c1, p1, 'reference link'), (c2, p2, 'plain link')):
+                if p >= limit:
+                    continue
+                val = {t: comp.cell_map['S!' + t].value for t in ('A1', 'B2', 'C1', 'D1')}
+                res = max(abs(val['A1'] - (a * val['C1'] + val['D1'])), abs(val['B2'] - (b * val['A1'] + 2)),
+                          abs(val['C1'] - val['B2']))
+                if res > 4 * tol_eff * (1 + 1e-5):
+                    ctx.violation(dict(case, which=which),
+                                  f"stopped after {p} < {limit} passes although the equations of the ring are off by "
+                                  f"{res} > 4 x tolerance {tol_eff}", impl=val)
+                    break
+
+
 def run(ctx):
     from harness.common import REPO
     impl = Impl()
@@ -714,6 +793,7 @@ def run(ctx):
     # made it a false alarm, DESIGN.md section 7.)
     ctx.extra['anchor_digest_at_transcription'] = ANCHOR_DIGEST
     file_smoke(ctx, impl)
+    reference_links(ctx)
     cases = [(wb, ops, label) for wb, ops, label in crafted(rng)]
     for k in range(ctx.n(7800, 60000)):
         r = rng.random()
